@@ -19,7 +19,13 @@ ChainCfgs == [custom : BOOLEAN, customle : BOOLEAN, named : {0}]
 ChainOps == [kind : Kinds, ogrant : BOOLEAN, grant : BOOLEAN, err : BOOLEAN, cls : {"success", "ignore", "dropped"},
              lecode : {"Unavailable", "Aborted"}, ctx : {"live"}, leerr : {"plain", "status"}]
 
+\* the wrapped call takes two seconds (on the virtual clock of a bubble): how long it took is never part of the answer
+SlowOps == [kind : Kinds, grant : {TRUE}, err : BOOLEAN, cls : {"success", "ignore", "dropped"}, lecode : {"Unavailable"},
+            ctx : {"live"}, leerr : {"plain"}, dur : {"slow"}]
+
 Init == /\ n = 0
+        /\ \A c \in Cfgs, op \in SlowOps :
+             Emit => PrintT(<<"SLOW", ToJson([cfg |-> c, op |-> op, exp |-> ApplyG(c, op)])>>)
         /\ \A c \in ChainCfgs, op \in ChainOps :
              Emit => PrintT(<<"CHAIN", ToJson([cfg |-> c, op |-> op, exp |-> ChainG(c, op)])>>)
 Next == /\ n < 1
